@@ -21,6 +21,21 @@ def mk_record(spec):
         st = f.get("strand", 1)
         # a part is [a, b] (strand of the feature) or [a, b, strand] (a join whose parts lie on different strands)
         locs = [FeatureLocation(p_[0], p_[1], strand=(p_[2] if len(p_) > 2 else st)) for p_ in f["parts"]]
+        if f.get("fuzzy") and locs[0].end - locs[0].start >= 2:
+            # positions that are not exact (GenBank "(3.5)..9", "one-of(3,5)..9", "<3..>9"): their integer value is what counts
+            from Bio.SeqFeature import AfterPosition, BeforePosition, BetweenPosition, OneOfPosition, WithinPosition, ExactPosition
+            a_, b_ = int(locs[0].start), int(locs[0].end)
+            kind = f["fuzzy"]
+            if kind == "within":
+                st_ = WithinPosition(a_, a_, a_ + 1)
+            elif kind == "oneof":
+                st_ = OneOfPosition(a_, [ExactPosition(a_), ExactPosition(a_ + 1)])
+            elif kind == "between":
+                st_ = BetweenPosition(a_, a_, a_ + 1)
+            else:
+                st_ = BeforePosition(a_)
+            en_ = AfterPosition(b_) if kind == "open" else b_
+            locs[0] = FeatureLocation(st_, en_, strand=locs[0].strand)
         loc = locs[0] if len(locs) == 1 else CompoundLocation(locs)
         quals = {k: list(v) for k, v in f.get("quals", {}).items()}
         if f.get("cites"):
@@ -160,7 +175,8 @@ def call_assemble(vcls, mclss, vrec, mrecs, id_, name, fault=None, prequery=Fals
     from moclo import errors
     from moclo.record import CircularRecord
     out = {"kind": "error", "exc": "", "moclo": False, "attr_ovh": [], "dup_ids": [], "seq": [], "id": "", "name": "",
-           "topo": "", "comment": [], "circular": False, "feats": [], "refs": [], "unused": [], "nwarn": 0, "fired": "", "cv": False, "cm": [], "isa": []}
+           "topo": "", "comment": [], "circular": False, "feats": [], "refs": [], "unused": [], "unused_o": [], "desc": "", "letters": [],
+           "nwarn": 0, "fired": "", "cv": False, "cm": [], "isa": []}
     ctl = {"n": 0, "at": 0, "exc": "", "calls": [], "fired": ""}
     if fault:
         ctl.update(at=fault["at"], exc=fault["exc"])
@@ -207,7 +223,8 @@ def call_assemble(vcls, mclss, vrec, mrecs, id_, name, fault=None, prequery=Fals
                    topo=str(prod.annotations.get("topology", "")), comment=[str(c) for c in prod.annotations.get("comment", [])]
                    if isinstance(prod.annotations.get("comment", []), list) else [str(prod.annotations.get("comment"))],
                    circular=isinstance(prod, CircularRecord), feats=[feat_proj(f, n, refs) for f in prod.features],
-                   refs=[ref_key(r) for r in refs], unused=sorted(unused))
+                   refs=[ref_key(r) for r in refs], unused=sorted(unused), unused_o=list(unused),
+                   desc=str(prod.description), letters=sorted(str(k) for k in prod.letter_annotations))
         joined = "\n".join(out["comment"])
         out["cv"] = vrec.id in joined
         out["cm"] = [m.id in joined for m in mrecs]
